@@ -1,6 +1,7 @@
 //! rv: property-based verification harness for Ruschm (see /verif/DESIGN.md).
 pub mod ast;
 pub mod checks;
+pub mod faults;
 pub mod gen;
 pub mod refeval;
 pub mod numgrid;
